@@ -24,6 +24,91 @@ pub fn atp(case: &Value) -> Value {
     json!({"id": case["id"], "ts": ts, "atp": out})
 }
 
+/// case: {"id", "dir": <sandbox directory>, "mode": "none"|"zod", "rounds": [{"files": {rel: text}}, ...]}
+/// ONE CommandAnalyzer and ONE generator are reused over all rounds (the library API as long-lived
+/// objects). Before each round the project directory <dir>/proj is made to hold exactly the
+/// round's files; the round is analysed with analyze_project and generated into the fresh
+/// directory <dir>/out<k>. Returns the four generated files of every round.
+pub fn reuse(case: &Value) -> Value {
+    use std::fs;
+    use std::path::{Path, PathBuf};
+    use tauri_typegen::analysis::CommandAnalyzer;
+    use tauri_typegen::generators::create_generator;
+    use tauri_typegen::GenerateConfig;
+
+    fn rs_files(dir: &Path, out: &mut Vec<PathBuf>) {
+        if let Ok(rd) = fs::read_dir(dir) {
+            for e in rd.flatten() {
+                let p = e.path();
+                if p.is_dir() {
+                    rs_files(&p, out);
+                } else {
+                    out.push(p);
+                }
+            }
+        }
+    }
+
+    let dir = PathBuf::from(case["dir"].as_str().unwrap());
+    let mode = case["mode"].as_str().unwrap_or("none").to_string();
+    let proj = dir.join("proj");
+    let mut analyzer = CommandAnalyzer::new();
+    let mut generator = create_generator(Some(mode.clone()));
+    let mut rounds = Vec::new();
+    for (k, round) in case["rounds"].as_array().unwrap().iter().enumerate() {
+        let files = round["files"].as_object().unwrap();
+        fs::create_dir_all(&proj).unwrap();
+        let mut existing = Vec::new();
+        rs_files(&proj, &mut existing);
+        for p in existing {
+            let rel = p.strip_prefix(&proj).unwrap().to_string_lossy().to_string();
+            if !files.contains_key(&rel) {
+                let _ = fs::remove_file(&p);
+            }
+        }
+        for (rel, text) in files {
+            let p = proj.join(rel);
+            fs::create_dir_all(p.parent().unwrap()).unwrap();
+            fs::write(&p, text.as_str().unwrap()).unwrap();
+        }
+        let out = dir.join(format!("out{}", k));
+        let mappings: std::collections::HashMap<String, String> = round["mappings"]
+            .as_object()
+            .map(|m| m.iter().map(|(k, v)| (k.clone(), v.as_str().unwrap_or("").to_string())).collect())
+            .unwrap_or_default();
+        let config = GenerateConfig {
+            project_path: proj.to_string_lossy().to_string(),
+            output_path: out.to_string_lossy().to_string(),
+            validation_library: mode.clone(),
+            type_mappings: if mappings.is_empty() { None } else { Some(mappings.clone()) },
+            ..Default::default()
+        };
+        if !mappings.is_empty() {
+            analyzer.add_type_mappings(&mappings);
+        }
+        let commands = match analyzer.analyze_project(&config.project_path) {
+            Ok(c) => c,
+            Err(e) => {
+                rounds.push(json!({"status": format!("analyze: {}", e), "files": {}}));
+                continue;
+            }
+        };
+        let structs = analyzer.get_discovered_structs().clone();
+        let status = match generator.generate_models(&commands, &structs, &config.output_path, &analyzer, &config) {
+            Ok(_) => "ok".to_string(),
+            Err(e) => format!("generate: {}", e),
+        };
+        let mut got = serde_json::Map::new();
+        for n in ["types.ts", "commands.ts", "events.ts", "index.ts"] {
+            if let Ok(t) = fs::read_to_string(out.join(n)) {
+                got.insert(n.to_string(), Value::String(t));
+            }
+        }
+        rounds.push(json!({"status": status, "commands": commands.iter().map(|c| c.name.clone()).collect::<Vec<_>>(), "files": got}));
+    }
+    json!({"id": case["id"], "rounds": rounds})
+}
+
 fn main() {
-    tt_harness::dispatch(&[("atp", atp)]);
+    tt_harness::dispatch(&[("atp", atp), ("reuse", reuse)]);
 }
